@@ -6,7 +6,6 @@ import (
 	"errors"
 	"fmt"
 	"runtime"
-	"time"
 	"sort"
 
 	"github.com/onflow/atree"
@@ -73,21 +72,7 @@ func (w *World) execCommit(st *Step) *Violation {
 		if w.BeforeCommitAttempt != nil {
 			w.BeforeCommitAttempt(w, st, attempts)
 		}
-		g0 := runtime.NumGoroutine()
 		err := w.commitOnce(st.Flavour, st.Workers)
-		if !inBubble {
-			// workers have called wg.Done before the commit returned, but may not have left the scheduler's
-			// books yet: poll generously (up to ~3 s under load) before calling it a leak
-			for i := 0; i < 3200 && runtime.NumGoroutine() > g0; i++ {
-				runtime.Gosched()
-				if i > 50 {
-					time.Sleep(time.Millisecond)
-				}
-			}
-			if g := runtime.NumGoroutine(); g > g0 {
-				return w.viol("live.goroutines", "commit (%s, %d workers) left %d goroutine(s) running after it returned", st.Flavour, st.Workers, g-g0)
-			}
-		}
 		w.commitJournal = nil
 		w.Ledger.SetPlan(nil)
 		w.Ledger.BeginPhase("op", false)
